@@ -185,6 +185,7 @@ def run_screen(chk: Check, quick: bool, rng: random.Random, so: str):
             by_stream.setdefault(tuple(st["stream"]), []).append(st)
         for s in strs:
             work.append((ab, attached, s, by_stream.get(tuple(s), [])))
+    e2e_pool = [(ab, s_, sts) for ab, attached, s_, sts in work if attached and sts]
     bad_lists = par.pmap(_screen_replay, work, so_path=so, procs=16, chunksize=32)
     chk.traces += len(work)
     chk.extra["screen_streams_replayed"] = len(work)
@@ -193,6 +194,122 @@ def run_screen(chk: Check, quick: bool, rng: random.Random, so: str):
         for b in bl:
             chk.violation({"part": "screen", "w": 8 * b.get("ab", 0)},
                           f"InMemoryScreen differs from FJScreen after byte {b['fed']} of stream {b['stream']}: got {b.get('got')} expected {b.get('expected')}", b)
+    return e2e_pool
+
+
+# ---------------------------------------------------------------------------------------------
+# (c) end to end: a program whose ops hold MemBytes and whose code prints a command stream, with the real screen
+#     as its IO device, on every engine
+
+E2E_ENGINES = ["featured", "fast", "native-flat", "native-flat-ring", "native-paged", "native-paged-ring", "native-measured", "native-hybrid:3"]
+CODE_OP = 0x72        # MemBytes[17] = 0x72: op 17's jump word, read as an address, is op 0x72
+
+
+def e2e_image(w: int, stream: List[int]) -> List[int]:
+    """words of the program: op k (k < 18) carries the packed byte MEMBYTES[k] in its jump word; op 0 -> op 0x11 = 17 -> op 0x72,
+    where one op per output bit prints the stream; the last op loops on itself (halts)."""
+    sh = w.bit_length()
+    dw = 2 * w
+    nops = CODE_OP + 8 * len(stream) + 1
+    words = [0] * (2 * nops + 2)
+    scratch = (2 * nops) * w            # a word after the code: harmless flip target
+    for k, b in enumerate(MEMBYTES):
+        words[2 * k + 1] = b << sh
+    assert MEMBYTES[0] == 0x11 and MEMBYTES[17] == CODE_OP
+    words[0] = scratch
+    words[2 * 17] = scratch + 1
+    op = CODE_OP
+    for byte in stream:
+        for bit in range(8):
+            words[2 * op] = dw + ((byte >> bit) & 1)
+            words[2 * op + 1] = (op + 1) * dw
+            op += 1
+    words[2 * op] = scratch + 2
+    words[2 * op + 1] = op * dw
+    return words
+
+
+def _e2e_run(args):
+    idx, ab, stream, states = args
+    fjm_run = par.fjm_run()
+    from flipjump.interpreter.io_devices.ScreenIO import InMemoryScreen
+    from flipjump.utils.exceptions import IODeviceException
+
+    w = 8 * ab
+
+    class RecScreen(InMemoryScreen):
+        def __init__(self):
+            super().__init__()
+            self.out, self.inpos, self.mem = [], 0, None
+
+        def attach_memory(self, dm):
+            self.mem = dm
+            return super().attach_memory(dm)
+
+        def write_bit(self, bit):
+            self.out.append(1 if bit else 0)
+            return super().write_bit(bit)
+
+    words = e2e_image(w, stream)
+    final = max(states, key=lambda st: st["fed"])
+    d = Path(tempfile.mkdtemp(prefix="fjv_c19e_"))
+    bad, recs = [], []
+    try:
+        path = d / "p.fjm"
+        engines.write_image(path, w, idx % 4, [(0, len(words), words)])
+        addrs = [0, 1, 2, 3, 2 * 17, 2 * 17 + 1, len(words) - 2, len(words) - 1]
+        base = {"w": w, "segs": [[nb(0, AW), nb(len(words), AW)]], "data": [[nb(i, AW), nb(v, w // 8)] for i, v in enumerate(words) if v], "inp": []}
+        for en in E2E_ENGINES:
+            scr = RecScreen()
+            obs = engines.run_engine(fjm_run, path, en, [], w=w, mem_addrs=addrs, budget_s=20.0, ring_len=40, device=scr)
+            got = {"err": bool(obs["exc"]), "width": scr.width, "height": scr.height, "bpp": scr.bpp,
+                   "palette": [list(c) for c in scr.palette], "pixels": list(scr.pixel_indices), "frames": scr.frame_count}
+            exp = {k: final[k] for k in got}
+            if got != exp or (obs["exc"] and not obs["exc"].split(":")[0].endswith("IODeviceException") and "IODevice" not in obs["exc"]):
+                bad.append({"engine": en, "w": w, "stream": stream, "got": got, "expected": exp, "exc": obs["exc"]})
+            if not final["err"] and not obs["exc"]:
+                # the machine half: the run itself (output bits, ops, cause, memory) is judged by TLC against FJMachine
+                o = {"cause": obs["cause"], "ops": max(obs["ops"], 0), "fault": obs["fault"], "out": obs["out"], "inused": obs["inused"], "mem": obs["mem"],
+                     "hashist": obs["hist"] is not None, "hist": obs["hist"] or [], "ringlen": 40}
+                r = dict(base)
+                r.update(obs=o, engine=en, stream=stream)
+                recs.append(r)
+    finally:
+        shutil.rmtree(d, ignore_errors=True)
+    return {"bad": bad, "recs": recs}
+
+
+def run_e2e(chk: Check, quick: bool, rng: random.Random, so: str, pool):
+    per_w = 10 if quick else 120
+    jobs = []
+    for ab in (2, 4, 8):
+        cand = [(s_, sts) for a, s_, sts in pool if a == ab and len(s_) <= 40]
+        # prefer streams that present a frame from program memory; keep some that end in a device error
+        good = [c for c in cand if max(c[1], key=lambda st: st["fed"])["frames"] > 0]
+        errs = [c for c in cand if max(c[1], key=lambda st: st["fed"])["err"]]
+        pick = rng.sample(good, min(len(good), per_w * 3 // 4)) + rng.sample(errs, min(len(errs), per_w // 4))
+        for s_, sts in pick:
+            jobs.append((len(jobs), ab, s_, sts))
+    outs = par.pmap(_e2e_run, jobs, so_path=so, procs=16, chunksize=1)
+    recs = []
+    for o in outs:
+        for b in o["bad"]:
+            chk.violation({"part": "screen-e2e", "engine_family": "native" if b["engine"].startswith("native") else b["engine"], "w": b["w"]},
+                          f"engine {b['engine']} (w={b['w']}): the screen after running a program that prints {b['stream']} differs from FJScreen: "
+                          f"got {b['got']} expected {b['expected']} (exception: {b['exc']})", b)
+        recs += o["recs"]
+    verdicts = c01.validate_records(chk, recs, "Trace_FJMachine[screen e2e]", batch=8)
+    for i, r in enumerate(recs):
+        v = verdicts.get(i)
+        if v is None:
+            raise MachineryFailure(f"no verdict for e2e record {i}")
+        if v["fail"]:
+            chk.violation({"part": "screen-e2e-machine", "engine_family": "native" if r["engine"].startswith("native") else r["engine"], "w": r["w"]},
+                          f"engine {r['engine']} (w={r['w']}) running the screen program for {r['stream']}: rejected by Trace_FJMachine, clauses {v['fail']}", {"record": r, "verdict": v})
+    chk.traces += len(jobs) * len(E2E_ENGINES)
+    chk.extra["e2e_programs"] = len(jobs)
+    chk.extra["e2e_runs"] = len(jobs) * len(E2E_ENGINES)
+    chk.extra["e2e_machine_records"] = len(recs)
 
 
 # ---------------------------------------------------------------------------------------------
@@ -418,5 +535,6 @@ def run(chk: Check, replay=None):
         "device word addresses are kept below 2^(w-log2 w) words + segments (addresses beyond the width's address space are not judged)",
         "the screen's program memory is abstracted as one packed byte per op (MemBytes); addresses in commands are dw-aligned and below 2^16",
     ]
-    run_screen(chk, quick, rng, so)
+    pool = run_screen(chk, quick, rng, so)
     run_devmem(chk, quick, rng, so)
+    run_e2e(chk, quick, rng, so, pool)
